@@ -176,6 +176,20 @@ CLAIMED["C09"] = dict(
     technique=E2 + " for derived-state independence (relational), run-time contract evaluation of the real save/load functions for structure; bounded bitwise resume",
 )
 
+CLAIMED["C06"] = dict(
+    category="proof",
+    text=("The real DDPDistributor.update_params is executed on symbolic block tensors under the all-gather contract (rely/guarantee over the group) for both modes, three "
+          "communication dtypes, every gradient-presence pattern of three blocks and for the executing rank being owner and non-owner: each gradient-carrying block ends as "
+          "param + round_comm(direction of its owner) (or round_comm(param + direction)), the same term on every rank, blocks without gradient untouched, exactly one all-gather "
+          "of (global buffer, local buffer, group) - for all values. The DDP masked-list invariant is checked over all mask transitions on the real distributors of 2 and 3 "
+          "simulated ranks. The collective-trace obligation compares, rank against rank, the real step()'s decision to enter the group step and the process-group creations of "
+          "the per-owner state allocation: both diverge on the unchanged tree (known findings F5, F6, with characteristic conditions); any other divergence is a violation."),
+    design_ref="DESIGN.md §4/C06, §5",
+    note=("all_gather / new_group contracts assumed; per-block buffers as independent cells (C14); owner's direction = serial direction (C01); hangs reduced to trace equality; "
+          "RI and end-to-end comparison with the serial optimizer on simulated ranks (threads) are bounded (world 1..4); F5/F6 are recorded findings, not repaired"),
+    technique=E2 + "; rely/guarantee contract for the collective, 2-safety trace comparison; known-findings protocol",
+)
+
 NOT_YET = "no check committed yet for this property (work in progress; see DESIGN.md for the planned contract)"
 
 
